@@ -101,7 +101,12 @@ fn migration_leg(acc: &mut Acc, rounds: usize) {
     for _ in 0..100 {
         deep = format!("[{deep}]");
     }
-    let texts = vec![deep, "c(other)".to_string(), "[n(id), c(id)]".to_string()];
+    // after the suspended call returns, the same rule still has a deeply nested operand to enter
+    let mut nest = String::from("i1");
+    for _ in 0..40 {
+        nest = format!("(i1 + {nest})");
+    }
+    let texts = vec![deep, "c(other)".to_string(), "[n(id), c(id)]".to_string(), format!("[c(i7), {nest}, n(i8), {nest}]")];
     let suspend = Arc::new(std::sync::atomic::AtomicBool::new(false));
     let s2 = suspend.clone();
     let calls: Arc<std::sync::Mutex<Vec<String>>> = Arc::new(std::sync::Mutex::new(Vec::new()));
@@ -140,7 +145,7 @@ fn migration_leg(acc: &mut Acc, rounds: usize) {
             }
         }
     });
-    let suspension_points = 4; // c(id) deep, c(other), n(id), c(id) cached -> 3 calls; one spare
+    let suspension_points = 6; // c(id) deep, c(other), n(id), c(id) cached, c(i7), n(i8) -> 5 calls; one spare
     for k in 1..=suspension_points {
         for round in 0..rounds {
             acc.count("executions", 1);
@@ -255,7 +260,7 @@ fn thread_crowd_leg(acc: &mut Acc, n: usize) {
     // a fresh ruleset per schedule: whatever a ruleset counts or pools starts from zero each time
     let build = || -> Arc<RuleSet> {
         let mut b = ruleset();
-        for (i, t) in ["c(id)", "c(other)", "[c(id), n(id)]", "c(third)", "c(id)"].iter().enumerate() {
+        for (i, t) in ["c(id)", "c(other)", "[c(id), n(id), (i1 + (i1 + (i1 + (i1 + (i1 + (i1 + (i1 + (i1 + (i1 + (i1 + (i1 + (i1 + (i1 + (i1 + (i1 + (i1 + (i1 + (i1 + (i1 + (i1 + i1))))))))))))))))))))]", "c(third)", "c(id)"].iter().enumerate() {
             b = b.with_rule(Rule::new(format!("r{i}"), BTreeMap::new(), Expr::parse(t).unwrap())).unwrap();
         }
         Arc::new(b.with_function(probe("c", true, &h)).unwrap().with_function(probe("n", false, &h)).unwrap().build())
@@ -457,12 +462,12 @@ fn stress_leg(acc: &mut Acc, rounds: usize) {
     let barrier = Arc::new(Barrier::new(threads));
     // `other` is the same never-seen-before value for all threads of a round, `id` is distinct
     let facts = |round: usize, t: usize| stress_facts(round, t);
-    let eval = |rs: &RuleSet, f: &Value| -> Vec<Obs> {
+    fn eval(rs: &RuleSet, f: &Value) -> Vec<Obs> {
         match crate::engine::exec::block_on(rs.evaluate_value(f)) {
             Ok(Ok(o)) => o.into_iter().map(|x| observe(Ok(x.value))).collect(),
             other => vec![Obs::Panic(format!("{:?}", other.map(|_| ())))],
         }
-    };
+    }
     let mut handles = Vec::new();
     for t in 0..threads {
         let (rs, barrier) = (shared.clone(), barrier.clone());
@@ -494,11 +499,69 @@ fn stress_leg(acc: &mut Acc, rounds: usize) {
             }
         }
     }
+    // free-running phase: 16 threads, no barrier, a ruleset that spends its time inside reval's own
+    // code (casts on never-seen-before strings), so that whatever global state reval keeps is
+    // entered by many threads at once
+    {
+        let cast_texts = ["datetime(ts)", "[datetime(ts2), datetime(ts3), datetime(ts4)]", "[int(num), dec(num), float(num)]", "[uppercase(name), lowercase(name), trim(name)]", "year(datetime(ts3)) * i100 + month(datetime(ts3))"];
+        let build_casts = || {
+            let mut b = ruleset();
+            for (i, t) in cast_texts.iter().enumerate() {
+                b = b.with_rule(Rule::new(format!("r{i}"), BTreeMap::new(), Expr::parse(t).unwrap())).unwrap();
+            }
+            Arc::new(b.build())
+        };
+        let cast_facts = |round: usize, t: usize| -> Value {
+            let sec = |x: usize| format!("20{:02}-{:02}-{:02}T{:02}:{:02}:{:02}Z", 10 + x / 31_536_000 % 80, 1 + x / 2_419_200 % 12, 1 + x / 86_400 % 28, x / 3600 % 24, x / 60 % 60, x % 60);
+            let k = round * 64 + t;
+            Value::Map(
+                [
+                    ("ts".to_string(), Value::String(sec(4 * k))),
+                    ("ts2".to_string(), Value::String(sec(4 * k + 1))),
+                    ("ts3".to_string(), Value::String(sec(4 * k + 2))),
+                    ("ts4".to_string(), Value::String(sec(4 * k + 3))),
+                    ("num".to_string(), Value::String(format!("{}", 7 * k + 1))),
+                    ("name".to_string(), Value::String(format!("  Name-{k}  "))),
+                ]
+                .into_iter()
+                .collect(),
+            )
+        };
+        let shared = build_casts();
+        let reference = build_casts();
+        let free_threads = 16usize;
+        let start = Arc::new(Barrier::new(free_threads));
+        let mut hs = Vec::new();
+        for t in 0..free_threads {
+            let (rs, start) = (shared.clone(), start.clone());
+            hs.push(std::thread::spawn(move || {
+                start.wait();
+                (0..rounds).map(|round| eval(&rs, &cast_facts(round, t))).collect::<Vec<_>>()
+            }));
+        }
+        let res: Vec<Vec<Vec<Obs>>> = hs.into_iter().map(|h| h.join().unwrap_or_default()).collect();
+        for (t, per_thread) in res.iter().enumerate() {
+            if per_thread.len() != rounds {
+                wrong += 1;
+                first.get_or_insert(format!("free-running thread {t} died"));
+            }
+            for (round, got) in per_thread.iter().enumerate() {
+                let want = eval(&reference, &cast_facts(round, t));
+                if *got != want {
+                    wrong += 1;
+                    if first.is_none() {
+                        first = Some(format!("free-running thread {t}, evaluation {round}: {:?} instead of {:?}", got.iter().map(|o| o.show()).collect::<Vec<_>>(), want.iter().map(|o| o.show()).collect::<Vec<_>>()));
+                    }
+                }
+            }
+        }
+        acc.count("stress_evaluations_sampled_not_deciding", (free_threads * rounds) as u64);
+    }
     acc.count("stress_evaluations_sampled_not_deciding", (threads * rounds) as u64);
     if let Some(f) = first {
         acc.violation(Violation {
             sig: "stress/outcome".into(),
-            what: format!("{wrong} of {} concurrent evaluations on 8 OS threads differ from the sequential reference; first: {f}", threads * rounds),
+            what: format!("{wrong} of {} concurrent evaluations on 8 / 16 OS threads differ from the sequential reference; first: {f}", 24 * rounds),
             case: json!({"kind": "stress"}),
             size: 1,
         });
@@ -548,7 +611,7 @@ pub fn run(tier: Tier) -> i32 {
     };
     rep.bound("loom_scenarios", scenarios.iter().map(|(s, b, _)| format!("{s} (preemption bound {b})")).collect::<Vec<_>>());
     rep.bound("migration_rounds_per_suspension_point", tier.pick(20, 200));
-    rep.bound("stress_rounds_non_deciding", tier.pick(300, 3000));
+    rep.bound("stress_rounds_non_deciding", tier.pick(2000, 10000));
     let mut schedules = 0u64;
     let mut sync_ops = 0u64;
     let mut covered = Vec::new();
@@ -596,7 +659,7 @@ pub fn run(tier: Tier) -> i32 {
         thread_crowd_leg(&mut acc, n);
     }
     rep.bound("thread_crowd_sizes", crowd);
-    stress_leg(&mut acc, tier.pick(300, 3000));
+    stress_leg(&mut acc, tier.pick(2000, 10000));
     acc.sample("scenario", 1, || json!({"two": "2 threads, rules [c(id), n(id), c(id), c(other), bad(id)], inputs {id:1,other:2} / {id:2,other:1}, every user-function call suspends once", "handoff": "thread 0 polls an evaluation once, hands the future to thread 1 which finishes it while thread 0 runs another evaluation"}));
     let hits = scan_repo();
     let unmodelled: Vec<&String> = hits.iter().filter(|h| !h.contains("lazy_static") && !h.contains("EMPTY_RULES")).collect();
